@@ -29,6 +29,8 @@ RAISES = {
     "badrepr": "class ValueErrorR(ValueError):\n    def __repr__(self): raise RuntimeError('no repr')\nraise ValueErrorR('boom-%(tag)s')",
     "badstr": "class ValueErrorS(ValueError):\n    def __str__(self): raise RuntimeError('no str')\nraise ValueErrorS('boom-%(tag)s')",
     "eof": "raise EOFError('boom-%(tag)s')",
+    # a message that embeds a large item (longer than any plausible cap on the error text): type and message still arrive
+    "huge": "raise ValueError('boom-%(tag)s' + 'x' * 70000 + '-tail-%(tag)s')",
     # a BaseException that is neither an Exception nor SystemExit / KeyboardInterrupt (GeneratorExit, asyncio.CancelledError, ...)
     "baseexc": "class ValueErrorB(BaseException):\n    pass\nraise ValueErrorB('boom-%(tag)s')",
 }
@@ -203,7 +205,7 @@ def gen_conversation(rng, kinds, tag):
     kind = rng.choice(kinds)
     c = {"kind": kind, "tag": tag}
     if kind == "produce_raise" and rng.random() < 0.4:
-        c["exc"] = rng.choice(["surrogate", "badrepr", "badstr", "eof", "baseexc"])
+        c["exc"] = rng.choice(["surrogate", "badrepr", "badstr", "eof", "baseexc", "huge"])
     if kind in ("produce", "produce_raise"):
         c["items"] = gen_items(rng)
         c["consume"] = rng.choice(["receive", "iter", "iter_and_receiver", "callback", "callback_late", "callback_mid", "callback_end_raises", "two_receivers", "waitclose_then_receive", "poll"] + (["callback_dropped"] if kind == "produce" else []))
@@ -850,7 +852,8 @@ def check_conversation(ck, prefix, c, o, out, ex, lossy=False):
             if nerr != 1:
                 ck.fail(prefix + f"remote-error-not-exactly-once:{mode}:{o.get('end')}:{o.get('waitclose')}" + (":body-raised-EOFError" if c.get("exc") == "eof" else ""), ex)
             elif (("EOFError" if c.get("exc") == "eof" else "ValueError") not in o.get("errtext", "")
-                  or (c.get("exc") != "badstr" and ("boom-%s" % c["tag"]) not in o.get("errtext", ""))):
+                  or (c.get("exc") != "badstr" and ("boom-%s" % c["tag"]) not in o.get("errtext", ""))
+                  or (c.get("exc") == "huge" and ("-tail-%s" % c["tag"]) not in o.get("errtext", ""))):
                 ck.fail(prefix + "remote-error-text-lacks-type-or-message", ex)
             if mode != "iter" and o.get("after") != "EOFError":
                 ck.fail(prefix + "after-remote-error-not-EOFError:" + str(o.get("after")), ex)
